@@ -3,7 +3,7 @@
    lazy_analysis.py, tied to /repo by the correspondence check) and Spec.v (defining sums). *)
 From Coq Require Import List Bool Arith ZArith QArith Qcanon.
 From AL Require Import Base.CaseLib C10.Model C10.Spec C10.Proofs_Sum C10.Proofs_Tab C10.Proofs_Lev
-  C10.Proofs_Kac C10.Proofs_Kcv C10.Check C10.Proofs_Check.
+  C10.Proofs_Kac C10.Proofs_Kcv C10.Check C10.Proofs_Check C10.TabLib C10.Gen_Tables C10.Proofs_Gen C10.Proofs_Complete.
 Import ListNotations.
 Open Scope Qc_scope.
 
@@ -220,3 +220,54 @@ Theorem C10_holds_kcv_sound : forall c a e, holds_kcv c = true -> c_obs c = FOk 
   e = energy_cov a x p.
 Proof. exact holds_kcv_sound. Qed.
 Print Assumptions C10_holds_kcv_sound.
+
+(* ------------------------------------------------------------------ the translated source *)
+(* Gen_Tables.v is regenerated from the Python source of acorr / lag_matrix / toeplitz on every run
+   (harness/C10_translate.py, integers as Z).  The generated definitions are the hand-written table
+   models above, for every block and every max_lag >= 0 or omitted ... *)
+Theorem C10_gen_acorr_is_model : forall blk lag, gen_acorr blk (option_map Z.of_nat lag) = acorr blk lag.
+Proof. exact gen_acorr_eq. Qed.
+Print Assumptions C10_gen_acorr_is_model.
+
+Theorem C10_gen_lag_matrix_is_model : forall blk lag,
+  gen_lag_matrix blk (option_map Z.of_nat lag) = lag_matrix blk lag.
+Proof. exact gen_lag_matrix_eq. Qed.
+Print Assumptions C10_gen_lag_matrix_is_model.
+
+Theorem C10_gen_toeplitz_is_model : forall v, gen_toeplitz v = toeplitz v.
+Proof. exact gen_toeplitz_eq. Qed.
+Print Assumptions C10_gen_toeplitz_is_model.
+
+(* ... and for ANY integer max_lag the translated acorr is the list of the max(0, max_lag+1) defining sums;
+   a negative max_lag gives the empty table in lag_matrix (it is not rejected) *)
+Theorem C10_gen_acorr_is_sum : forall blk z,
+  gen_acorr blk (Some z) = map (acorr_sum blk) (seq 0 (Z.to_nat (z + 1))).
+Proof. exact gen_acorr_is_sum. Qed.
+Print Assumptions C10_gen_acorr_is_sum.
+
+Theorem C10_gen_lag_matrix_negative : forall blk z, (z < 0)%Z -> gen_lag_matrix blk (Some z) = Ok [].
+Proof. exact gen_lag_matrix_negative. Qed.
+Print Assumptions C10_gen_lag_matrix_negative.
+
+(* ------------------------------------------------------------------ the run-time checkers are complete w.r.t. the model *)
+(* If the implementation's observation equals the model's output on a case, the property checker accepts it
+   (by the theorems above): a holds_* failure can only occur together with a broken correspondence. *)
+Theorem C10_corr_lev_implies_holds : forall c, corr_lev c = true -> holds_lev c = true.
+Proof. exact corr_lev_holds. Qed.
+Print Assumptions C10_corr_lev_implies_holds.
+
+Theorem C10_corr_kac_implies_holds : forall c, corr_kac c = true -> holds_kac c = true.
+Proof. exact corr_kac_holds. Qed.
+Print Assumptions C10_corr_kac_implies_holds.
+
+Theorem C10_corr_kcv_implies_holds : forall c, corr_kcv c = true -> holds_kcv c = true.
+Proof. exact corr_kcv_holds. Qed.
+Print Assumptions C10_corr_kcv_implies_holds.
+
+Theorem C10_corr_tab_implies_holds : forall c, corr_tab c = true -> holds_tab c = true.
+Proof. exact corr_tab_holds. Qed.
+Print Assumptions C10_corr_tab_implies_holds.
+
+Theorem C10_corr_tabz_implies_holds : forall c, corr_tabz c = true -> holds_tabz c = true.
+Proof. exact corr_tabz_holds. Qed.
+Print Assumptions C10_corr_tabz_implies_holds.
